@@ -223,14 +223,16 @@ def _index_like(v: Rat) -> bool:
 def _find_index(env_post, env_pre):
     """The split index: the variable assigned in the body whose value is (a constant plus) an argmax / argmin /
     int(...) in at least one case; ties are broken in favour of the one with most such cases."""
-    best = (None, None, 0)
+    best = (None, None, (0, 0))
     for name, v in env_post.items():
         if name in env_pre and vkey(env_pre[name]) == vkey(v):
             continue
         n = sum(1 for _g, x in cases_of(v) if isinstance(x, Rat) and _index_like(x))
         others = sum(1 for _g, x in cases_of(v) if isinstance(x, Rat) and not _index_like(x))
-        if n and not others and n > best[2]:
-            best = (name, v, n)
+        # `split = left + index` is index-like as well: the index proper is the one that is a bare position (+ constant)
+        bare = sum(1 for _g, x in cases_of(v) if isinstance(x, Rat) and _index_like(x) and _position_atom(x)[2].is_const() is not None)
+        if n and not others and (n, bare) > best[2]:
+            best = (name, v, (n, bare))
     return best[0], best[1]
 
 
